@@ -497,15 +497,16 @@ func (ndb *nodeDB) deleteVersion(version int64, cache *rootkeyCache) error {
 					return err
 				}
 			}
-			if orphan.nodeKey.nonce == 1 && orphan.nodeKey.version < version {
-				// if the orphan is referred to the previous root, it should be reformatted
-				// to (version, 0), because the root (version, 1) should be removed but not
-				// applied now due to the batch writing.
-				orphan.nodeKey.nonce = 0
-			}
 			nk := orphan.GetKey()
 			if orphan.isLegacy {
 				return ndb.deleteFromPruning(ndb.legacyNodeKey(nk))
+			}
+			if orphan.nodeKey.nonce == 1 && orphan.nodeKey.version < version {
+				// if the orphan is referred to the previous root, it was reformatted to
+				// (version, 0) when its own version was pruned: that is the key to delete.
+				// The node object comes from the node cache and may be in use by readers
+				// of later versions, so it is not modified.
+				nk = (&NodeKey{version: orphan.nodeKey.version, nonce: 0}).GetKey()
 			}
 			return ndb.deleteFromPruning(ndb.nodeKey(nk))
 		})
@@ -531,8 +532,10 @@ func (ndb *nodeDB) deleteVersion(version int64, cache *rootkeyCache) error {
 		}
 		// the root should be reformatted to (version, 0); write the new copy first so that
 		// the node is never absent from the store if the batch is flushed in between
-		root.nodeKey.nonce = 0
-		if err := ndb.saveNodeFromPruning(root); err != nil {
+		// (a copy is written: the cached node object may be in use by readers of later versions)
+		rekeyed := *root
+		rekeyed.nodeKey = &NodeKey{version: root.nodeKey.version, nonce: 0}
+		if err := ndb.saveNodeFromPruning(&rekeyed); err != nil {
 			return err
 		}
 		// ensure that the given version is not included in the root search
